@@ -47,7 +47,23 @@ DimSpecClauses(e) ==
 CheckClauses(e) ==
     IF ~AllResolve(e.a) THEN {"resolve"}
     ELSE IF e.val # (DimOf(e.a) = ExpandDimPairs(e.spec)) THEN {"predicate-" \o e.which} ELSE {}
+\* comparison of two quantities of the same dimension (C05): a = am [a-units], b = (bm0 + delta) [b-units] where the
+\* driver chose bm0 as a converted to b's units (validated here through fingerprints) and delta's sign is logged.
+PhysFp(m, c) == FMul(FDiv(m[1], m[2]), FpOf(c))
+CmpClauses(e) ==
+    IF ~(AllResolve(e.a) /\ AllResolve(e.b)) THEN {"resolve"}
+    ELSE IF ~(ExactOf(e.a) /\ ExactOf(e.b)) THEN {}
+    ELSE IF PhysFp(e.am, e.a) # PhysFp(e.bm0, e.b) THEN {"construction"}
+    ELSE LET same == e.sign = 0 IN
+         (IF e.eq # same THEN {"eq"} ELSE {})
+         \cup (IF e.ne # ~same THEN {"ne"} ELSE {})
+         \cup (IF same /\ ~e.hash_eq THEN {"hash"} ELSE {})
+         \cup (IF e.lt # (e.sign > 0) THEN {"lt"} ELSE {})
+         \cup (IF e.gt # (e.sign < 0) THEN {"gt"} ELSE {})
+         \cup (IF e.le # (e.sign >= 0) THEN {"le"} ELSE {})
+         \cup (IF e.ge # (e.sign <= 0) THEN {"ge"} ELSE {})
 Clauses(e) == CASE e.ev = "conv" -> ConvClauses(e)
+                [] e.ev = "cmp" -> CmpClauses(e)
                 [] e.ev = "dimspec" -> DimSpecClauses(e)
                 [] e.ev = "check" -> CheckClauses(e)
                 [] e.ev = "path" -> PathClauses(e)
@@ -57,6 +73,7 @@ Clauses(e) == CASE e.ev = "conv" -> ConvClauses(e)
 Skipped(e) == CASE e.ev = "conv" -> AllResolve(e.a) /\ AllResolve(e.b) /\ e.checkfactor /\ ~(ExactOf(e.a) /\ ExactOf(e.b))
                 [] e.ev = "root" -> AllResolve(e.u) /\ ~ExactOf(e.u)
                 [] e.ev = "path" -> AllResolve(e.a) /\ AllResolve(e.b) /\ AllResolve(e.c) /\ ~(ExactOf(e.a) /\ ExactOf(e.b) /\ ExactOf(e.c))
+                [] e.ev = "cmp" -> AllResolve(e.a) /\ AllResolve(e.b) /\ ~(ExactOf(e.a) /\ ExactOf(e.b))
                 [] OTHER -> FALSE
 
 Init == l = 1 /\ bad = {} /\ skip = {}
